@@ -17,6 +17,11 @@ type stateOp struct {
 
 var stateOps = []string{"sign-good-A", "sign-good-B", "sign-early", "sign-late", "verify", "content"}
 
+// every other place a signing can fail: at the signer, at an extended attribute, at the timestamping step (after the signer was
+// invoked and the new message exists, before it is assigned), and — after the assignment — at an empty signature
+var stateOpsWide = []string{"sign-good-A", "sign-good-B", "sign-early", "sign-early-signer-error", "sign-early-bad-attribute", "sign-early-timestamp-fails",
+	"sign-early-timestamp-rejected", "sign-late", "sign-late-empty-signature", "verify", "content"}
+
 const payloadA = `{"which":"A"}`
 const payloadB = `{"which":"B"}`
 const payloadLate = `{"which":"late"}`
@@ -112,6 +117,33 @@ func runHistory(r *Runner, format string, start string, ops []string, idx int, l
 			case "sign-early":
 				req = baseRequest(mkSigner(), "", signature.SigningSchemeX509, now)
 				a = map[string]any{"op": "sign-early"}
+			case "sign-early-signer-error":
+				rs := newRemote(id)
+				rs.signErr = errScripted
+				req = baseRequest(rs, payloadLate, signature.SigningSchemeX509, now)
+				a = map[string]any{"op": "sign-early"}
+			case "sign-early-bad-attribute":
+				req = baseRequest(mkSigner(), payloadLate, signature.SigningSchemeX509, now)
+				req.ExtendedSignedAttributes = []signature.Attribute{{Key: "k", Value: 1}, {Key: "k", Value: 2}}
+				a = map[string]any{"op": "sign-early"}
+			case "sign-early-timestamp-fails", "sign-early-timestamp-rejected":
+				// the signer is invoked and the new message is complete; the timestamp authority then fails
+				req = baseRequest(mkSigner(), payloadLate, signature.SigningSchemeX509, now)
+				t := &tsSpec{configured: true, mode: "custom-error", behaviour: "good", tsaLen: 2, roots: "right", validator: "none"}
+				if op == "sign-early-timestamp-rejected" {
+					t.mode, t.behaviour = "http", "rejected"
+				}
+				tsSetup(t, req, []byte(payloadLate))
+				a = map[string]any{"op": "sign-early"}
+			case "sign-late-empty-signature":
+				rs := newRemote(id)
+				rs.emptySig = true
+				req = baseRequest(rs, payloadLate, signature.SigningSchemeX509, now)
+				a = map[string]any{"op": "sign-late", "msg": map[string]any{"content": 3, "verifies": false, "readable": false}}
+				if format == "cose" {
+					// go-cose refuses an empty signature inside the format-level Sign: nothing is assigned (Model.Sign.prepare)
+					a = map[string]any{"op": "sign-early"}
+				}
 			case "sign-late":
 				// valid chain, signing time outside the leaf's validity: the format-level Sign succeeds,
 				// the wrapper's chain check at the signing time fails
@@ -190,6 +222,29 @@ func genC20(r *Runner) {
 		for _, start := range []string{"new", "parsed-valid", "parsed-tampered"} {
 			for n := 1; n <= maxLen; n++ {
 				for _, seq := range sequences(stateOps, n) {
+					jobs = append(jobs, job{format, start, seq, (len(jobs)%2 == 0)})
+				}
+			}
+		}
+	}
+	// the wide alphabet: every history up to length 3 (quick) / 4 (thorough)
+	wideLen := 3
+	if tier() != "quick" {
+		wideLen = 4
+	}
+	for _, format := range []string{"jws", "cose"} {
+		for _, start := range []string{"new", "parsed-valid", "parsed-tampered"} {
+			for n := 2; n <= wideLen; n++ {
+				for _, seq := range sequences(stateOpsWide, n) {
+					wide := false
+					for _, o := range seq {
+						if o != "sign-early" && o != "sign-late" && (len(o) > 10 && (o[:10] == "sign-early" || o[:9] == "sign-late")) {
+							wide = true
+						}
+					}
+					if !wide {
+						continue // covered by the exhaustive part above
+					}
 					jobs = append(jobs, job{format, start, seq, (len(jobs)%2 == 0)})
 				}
 			}
